@@ -31,6 +31,7 @@ from typing import Optional, Tuple
 
 import numpy as np
 
+from lbfgsb.base import clip2bounds
 from lbfgsb.bfgsmats import LBFGSB_MATRICES, bmv
 from lbfgsb.types import NDArrayFloat, NDArrayInt
 
@@ -290,6 +291,8 @@ def get_cauchy_point(
 
     # d is zero for the variables already fixed at a bound: only the free ones move
     x_cp += t_old * d
+    # rounding may push a free variable one ulp beyond the bound it heads to
+    x_cp = clip2bounds(x_cp, lb, ub)
 
     c += delta_t_min * p
 
